@@ -36,7 +36,7 @@ for P in $PROP $OTHERS; do
   echo "$OUT" > /verif/seeded/$ID/check-$P.log
   if [ -f /verif/replays/$P/violation-1.txt ]; then cp /verif/replays/$P/violation-1.txt /verif/seeded/$ID/replay-$P.txt; fi
 done
-git -C /repo checkout -- .
+git -C /repo apply -R $M/patch.diff 2>/dev/null; git -C /repo checkout -- .
 git -C /repo status --short | head -3
 # regenerate translated files from the restored tree
 python3 translate/tables.py lean >/dev/null; python3 translate/terms.py lean >/dev/null; python3 translate/uff.py lean >/dev/null
